@@ -70,6 +70,8 @@ type step struct {
 	Cut      int    `json:"cut,omitempty"` // >0: send only that many payload bytes, then end the session
 	Last     bool   `json:"last,omitempty"`
 	Truncate int    `json:"truncate,omitempty"` // bdat: send only that many bytes of the declared chunk, then end the session
+	CutWire  []byte `json:"-"`                  // data (group X): exactly these bytes follow the 354, then the session ends
+	CutClass string `json:"cut_class,omitempty"`
 	Force    bool   `json:"force,omitempty"`    // bdat: send the chunk even when the client knows that no recipient was accepted
 }
 
@@ -87,6 +89,10 @@ type scenario struct {
 	MaxReceived    int          `json:"max_received"`
 	MaxHeader      int          `json:"max_header"`
 	MaxMsg         int          `json:"max_msg"`
+	Buffer         string       `json:"buffer,omitempty"`      // arguments of the buffer directive; "" = ram, "default" = directive left out (auto 1M)
+	AutoSize       int          `json:"auto_size,omitempty"`   // buffer auto: bytes kept in memory before the spill to the file system
+	V6             bool         `json:"ipv6,omitempty"`        // endpoint listens on [::1], the client is an IPv6 client
+	Hostile        *hostileCase `json:"hostile,omitempty"`     // group X (hostile_test.go)
 	Faults         []fault      `json:"faults"`
 	Steps          []step       `json:"steps"`
 	End            string       `json:"end"` // quit halfclose rst close
@@ -185,7 +191,13 @@ func (sc *scenario) configText(id string) string {
 	if !sc.lmtp() {
 		b.WriteString("tls off\n")
 	}
-	b.WriteString("buffer ram\n")
+	switch sc.Buffer {
+	case "":
+		b.WriteString("buffer ram\n")
+	case "default": // the endpoint's own default: auto, 1 MiB in memory
+	default:
+		b.WriteString("buffer " + sc.Buffer + "\n")
+	}
 	fmt.Fprintf(&b, "max_received %d\nmax_header_size %db\nmax_message_size %db\n", sc.MaxReceived, sc.MaxHeader, sc.MaxMsg)
 	if sc.Defer {
 		b.WriteString("defer_sender_reject yes\n")
